@@ -67,6 +67,7 @@ def case_patch(draw, tier):
     ncomp = d if problem == 'elasticity' else 1
     return dict(mesh=desc, elem=d_el, k=k, problem=problem, polys=[draw(poly(d, deg)) for _ in range(ncomp)],
                 dpicks=draw(st.lists(st.integers(0, 10**4), min_size=1, max_size=10)), allD=draw(st.integers(0, 3)) == 0,
+                setup=draw(st.sampled_from(['arrays', 'arrays', 'named_parts', 'named_then_refined'])),
                 lam=draw(st.sampled_from([1.0, 0.5, 2.0])), mu=draw(st.sampled_from([1.0, 0.25, 3.0])), c0=draw(st.sampled_from([1.0, 0.5, 4.0])))
 
 
@@ -90,19 +91,44 @@ def body_patch(c, ctx):
     k = c['k']
     # the quadrature must integrate the element's own mass matrix (also on facets) whatever the degree of the solution
     io = min(2 * max(e.maxdeg if problem != 'elasticity' else e.elem.maxdeg, 1) + 2, 8 if kind == 'tet' else 14)
-    basis = CellBasis(m, e, intorder=io)
     elab = c['elem']['cls'] + (f"(p{'>=3' if c['elem']['p'] >= 3 else '<3'})" if 'p' in c['elem'] else '')
     sig = dict(problem=problem, elem=elab)
     if c['elem']['cls'] == 'ElementQuadP':
         sig['shifted_cells'] = 'local-order' in desc['feat'] or 'split' in desc['feat']
     bf = m.boundary_facets()
-    if c['allD']:
+    if c['allD'] or kind == 'wedge':
         Dfac = bf
     else:
         Dfac = np.array(sorted({int(bf[int(q) % len(bf)]) for q in c['dpicks']}), dtype=np.int32)
     Nfac = np.setdiff1d(bf, Dfac)
+    # how the user states the boundary parts: index arrays; names (the constrained part given to condense as a dictionary of
+    # views, one per named piece -- pieces share DOFs where they meet); names given on the coarse mesh and carried through
+    # refined()
+    setup = c.get('setup', 'arrays')
+    selD, selN, Ddict = Dfac, Nfac, None
+    if setup == 'named_parts' and kind != 'wedge':
+        parts = {'d1': Dfac[::2]}
+        if len(Dfac) > 1:
+            parts['d2'] = Dfac[1::2]
+        if len(Nfac):
+            parts['neu'] = Nfac
+            selN = 'neu'
+        m = m.with_boundaries(parts)
+        Ddict = [k_ for k_ in ('d1', 'd2') if k_ in parts]
+    elif setup == 'named_then_refined' and kind in ('line', 'tri', 'quad') and desc['cls'].endswith('1') and m.nelements <= 10:
+        parts = {'dir': Dfac}
+        if len(Nfac):
+            parts['neu'] = Nfac
+        m = m.with_boundaries(parts).refined()
+        bf = m.boundary_facets()
+        selD, selN = 'dir', 'neu'
+        Dfac = np.asarray(m.boundaries['dir'])
+        Nfac = np.asarray(m.boundaries['neu']) if len(Nfac) else Nfac
+    else:
+        setup = 'arrays'
+    basis = CellBasis(m, e, intorder=io)
     irregular = any(f in desc['feat'] for f in ('delaunay', 'jiggled', 'split', 'holes')) or any(f.startswith('renum') for f in desc['feat'])
-    ctx.cls(desc['cls'], problem, lab, 'mixed-bc' if len(Nfac) else 'dirichlet-only', f'deg={max(p.degree() for p in P)}')
+    ctx.cls(desc['cls'], problem, lab, 'mixed-bc' if len(Nfac) else 'dirichlet-only', f'deg={max(p.degree() for p in P)}', 'setup:' + setup)
     ctx.nt((irregular and len(Nfac) > 0) or max(p.degree() for p in P) >= 2)
 
     def ev(p, x):
@@ -111,8 +137,6 @@ def body_patch(c, ctx):
     def gradp(p, x):
         return np.array([p.diff(a).evalf(x) if p.diff(a) else 0 * x[0] for a in range(d)])
     facet_ok = kind != 'wedge'
-    if not facet_ok and not c['allD']:
-        Dfac, Nfac = bf, np.array([], dtype=np.int32)
     # ------------------------------------------------------------------ assemble the model problem
     if problem in ('poisson', 'reaction'):
         p = P[0]
@@ -129,7 +153,7 @@ def body_patch(c, ctx):
             K = K + c0 * mass.assemble(basis)
         f = LinearForm(lambda v, w: (-(lap.evalf(w.x) if lap else 0 * w.x[0]) + c0 * ev(p, w.x)) * v).assemble(basis)
         if len(Nfac):
-            fbN = FacetBasis(m, build_element(c['elem']), facets=Nfac, intorder=io)
+            fbN = FacetBasis(m, build_element(c['elem']), facets=selN, intorder=io)
             f = f + LinearForm(lambda v, w: dot(gradp(p, w.x), w.n) * v).assemble(fbN)
         exact = lambda x: ev(p, x) + 0 * x[0]           # noqa
     else:
@@ -159,7 +183,7 @@ def body_patch(c, ctx):
             return sum(-(divS[i].evalf(w.x) if divS[i] else 0 * w.x[0]) * v.value[i] for i in range(d))
         f = LinearForm(body_load).assemble(basis)
         if len(Nfac):
-            fbN = FacetBasis(m, skfem.ElementVector(build_element(c['elem'])), facets=Nfac, intorder=io)
+            fbN = FacetBasis(m, skfem.ElementVector(build_element(c['elem'])), facets=selN, intorder=io)
 
             def traction(v, w):
                 out = 0
@@ -173,14 +197,14 @@ def body_patch(c, ctx):
     # ------------------------------------------------------------------ essential data through the library's own projection
     if facet_ok:
         fbD = FacetBasis(m, (skfem.ElementVector(build_element(c['elem'])) if problem == 'elasticity' else build_element(c['elem'])),
-                         facets=Dfac, intorder=io)
+                         facets=selD, intorder=io)
         uD = fbD.project(exact)
-        D = basis.get_dofs(Dfac)
+        D = basis.get_dofs(selD) if Ddict is None else {k_: basis.get_dofs(k_) for k_ in Ddict}
     else:
         # prisms: no facet bases; boundary values through the cell projection (the space contains the polynomial)
         uD = basis.project(exact)
         D = basis.get_dofs()
-    Dflat = D.flatten()
+    Dflat = D.flatten() if Ddict is None else np.unique(np.concatenate([v_.flatten() for v_ in D.values()]))
     I = basis.complement_dofs(Dflat)
     if len(I):
         KII = K[I][:, I].toarray()
